@@ -69,7 +69,7 @@ PROP = {
                              "closer_output_dust": 90, "closee_output_dust": 22, "both_sides_closed": 115,
                              "shaped_nonopener_balance": 45, "rbf_script_changes": 60,
                              "rbf_script_change_closes": 55, "oracle_peer_script_after_change": 25},
-                   "thorough": {"nontrivial": 13000, "rbf_parties_with_block_height": 9000, "oracle_identical_tx": 35000, "oracle_exact_outputs": 35000,
+                   "thorough": {"nontrivial": 13000, "rbf_parties_with_block_height": 5000, "oracle_identical_tx": 35000, "oracle_exact_outputs": 35000,
                                 "rbf_replacements": 13000, "unaffordable_refused": 8500,
                                 "closee_output_dust": 2400}},
     }],
